@@ -35,9 +35,9 @@ func VerifC16_ReadResponseBounded() {
 	limit := verifrt.Int64("limit")
 	verifrt.Assume(limit >= 0 && limit <= int64(maxBody))
 	verifrt.AllocLimit(maxBody)
-	hdr := verifrt.BytesN("size", 4)            // ANY int32 size prefix
-	hdrLen := verifrt.Choice("prefixBytes", 5)  // how many of the 4 prefix bytes arrive at all
-	avail := verifrt.Bytes("body", maxBody+1)   // the bytes that follow before the stream ends
+	hdr := verifrt.BytesN("size", 4)             // ANY int32 size prefix
+	hdrLen := verifrt.Choice("prefixBytes", 5)   // how many of the 4 prefix bytes arrive at all
+	avail := verifrt.Bytes("body", maxBody+1)    // the bytes that follow before the stream ends
 	ioErr := verifrt.Choice("streamEnd", 2) == 1 // stream ends with an I/O error instead of EOF
 	size := verifI32(hdr)
 
@@ -369,7 +369,7 @@ func verifPeerHTTPAddrs(n *NSQD, lp *lookupPeer) []string {
 var verifTickC chan time.Time
 
 func verifNewTickerStub(d time.Duration) *time.Ticker { return &time.Ticker{C: verifTickC} }
-func verifTickerStopStub(t *time.Ticker)             {}
+func verifTickerStopStub(t *time.Ticker)              {}
 
 type verifLoopRun struct {
 	w      *verifWorld
@@ -381,11 +381,22 @@ type verifLoopRun struct {
 
 func verifStartLoop(nLookupd, budget int) *verifLoopRun {
 	w := verifNewWorld(nLookupd, budget)
+	var addrs []string
+	for _, ld := range w.lds {
+		addrs = append(addrs, ld.addr)
+	}
+	return verifStartLoopWith(w, addrs)
+}
+
+func verifStartLoopWith(w *verifWorld, addrs []string) *verifLoopRun {
 	verifrt.AllocBound(3)
 	for _, ld := range w.lds {
 		ld.identOK = verifIdentReplyNoAddr // (no HTTP address: GetTopic's pre-creation is part 5)
 	}
 	n := verifC16Nsqd(w)
+	o := *n.getOpts()
+	o.NSQLookupdTCPAddresses = addrs
+	n.swapOpts(&o)
 	r := &verifLoopRun{w: w, n: n}
 	if verifrt.Symbolic() {
 		verifTickC = make(chan time.Time)
@@ -531,6 +542,9 @@ func verifC16LoopFaults() {
 	steps := verifrt.Bound("churnSteps", 2, 2)
 	for i := 0; i < steps; i++ {
 		k := verifrt.Choice("op", 5)
+		if i == 0 {
+			verifrt.Assume(k != 2 && k != 3) // nothing to delete yet
+		}
 		r.w.beginStep()
 		r.op(k)
 		r.rest()
@@ -542,4 +556,161 @@ func verifC16LoopFaults() {
 	verifrt.Reach("fault-then-converged", hits > 0)
 	r.finish()
 	verifrt.Observe("faults", hits)
+}
+
+// ---------------------------------------------------------------------------------------------
+// C16 part 2b: a reply with ANY int32 size prefix, end to end through Command.
+// The lookupd answers a PING with 4 arbitrary prefix bytes followed by 0..2 bytes and hangs up.
+// Oracle: never a panic; the round trip succeeds only if the prefix announces no more than
+// what follows and no more than max-body-size, and then returns exactly those bytes; otherwise
+// it fails, the peer is disconnected and nothing stays open.
+// ---------------------------------------------------------------------------------------------
+
+func VerifC16_CommandSizePrefix() { verifrt.Atomic(verifC16CommandSizePrefix) }
+
+func verifC16CommandSizePrefix() {
+	w := verifNewWorld(1, 0)
+	verifrt.AllocBound(3)
+	ld := w.lds[0]
+	hdr := verifrt.BytesN("size", 4)
+	junk := []byte("xyz")[:verifrt.Choice("junk", 3)]
+	ld.pingReply = append(append([]byte{}, hdr...), junk...)
+	size := verifI32(hdr)
+	limit := int64(100)
+	lp := newLookupPeer(ld.addr, limit, verifLogNop, func(p *lookupPeer) {})
+	w.beginStep()
+	var resp []byte
+	var err error
+	panicked := verifrt.Panics(func() { resp, err = lp.Command(nsq.Ping()) })
+	w.endStep()
+	verifrt.Reach("input-negative-size", size < 0)
+	verifrt.Assert(!panicked, "lookupd-reply-size-never-panics-nsqd")
+	if panicked {
+		return
+	}
+	w.lock()
+	open := 0
+	for _, s := range ld.sessions {
+		if !s.closed {
+			open++
+		}
+	}
+	w.unlock()
+	if size >= 0 && int64(size) <= limit && int(size) <= len(junk) {
+		verifrt.Assert(err == nil && string(resp) == string(junk[:size]), "well-formed-reply-accepted")
+		verifrt.Assert(lp.state == stateConnected && open == 1, "success-leaves-peer-connected")
+		verifrt.Reach("accepted", size > 0)
+	} else {
+		verifrt.Assert(err != nil && resp == nil, "bad-size-prefix-is-an-error")
+		verifrt.Assert(lp.state == stateDisconnected && open == 0, "failure-leaves-peer-disconnected-and-closed")
+		verifrt.Reach("a-oversize-refused", int64(size) > limit)
+		verifrt.Reach("short-body-refused", size >= 0 && int64(size) <= limit)
+	}
+}
+
+// ---------------------------------------------------------------------------------------------
+// C16 part 4b: two lookupds (a failing peer does not stop the others) and runtime
+// reconfiguration of the lookupd list.
+// ---------------------------------------------------------------------------------------------
+
+func VerifC16_LookupLoopTwoPeers() { verifrt.Atomic(verifC16LoopTwoPeers) }
+
+func verifC16LoopTwoPeers() {
+	r := verifStartLoop(2, verifrt.Bound("faults", 1, 1))
+	r.checkRest("start")
+	steps := verifrt.Bound("churnSteps", 1, 2)
+	for i := 0; i < steps; i++ {
+		k := verifrt.Choice("op", 5)
+		if i == 0 {
+			verifrt.Assume(k != 2 && k != 3) // nothing to delete yet
+		}
+		r.w.beginStep()
+		r.op(k)
+		r.rest()
+		r.w.endStep()
+		r.checkRest("churn")
+	}
+	// the lookupd no fault has touched (one connection, still held) is in sync right now
+	untouched := 0
+	for _, ld := range r.w.lds {
+		r.w.lock()
+		calm := len(ld.sessions) == 1 && ld.current().alive() && !ld.down
+		r.w.unlock()
+		if calm {
+			untouched++
+			verifrt.Assert(verifInSync(r.n, ld), "healthy-lookupd-in-sync-whatever-the-other-does")
+		}
+	}
+	verifrt.Assert(untouched >= 1, "one-fault-touches-one-lookupd")
+	verifrt.Reach("a-both-healthy", r.w.hits == 0 && untouched == 2 && r.ticks == 0)
+	verifrt.Reach("one-failing-one-healthy", r.w.hits > 0 && untouched == 1)
+	r.finish()
+}
+
+func VerifC16_LookupLoopReconfigure() { verifrt.Atomic(verifC16LoopReconfigure) }
+
+func verifC16LoopReconfigure() {
+	w := verifNewWorld(2, 0)
+	verifC16Stubs()
+	pick := func(mask int) []string {
+		var l []string
+		for i, ld := range w.lds {
+			if mask&(1<<uint(i)) != 0 {
+				l = append(l, ld.addr)
+			}
+		}
+		return l
+	}
+	before := verifrt.Choice("before", 4)
+	after := verifrt.Choice("after", 4)
+	r := verifStartLoopWith(w, pick(before))
+	r.checkRest("start")
+	w.beginStep()
+	r.op(verifrt.Choice("op1", 2))
+	r.rest()
+	w.endStep()
+	r.checkRest("churn")
+
+	// the operator changes --lookupd-tcp-address at run time
+	o := *r.n.getOpts()
+	o.NSQLookupdTCPAddresses = pick(after)
+	w.beginStep()
+	r.n.swapOpts(&o)
+	r.n.triggerOptsNotification()
+	r.rest()
+	w.endStep()
+
+	w.beginStep()
+	r.op(verifrt.Choice("op2", 4))
+	r.rest()
+	w.endStep()
+
+	for i, ld := range w.lds {
+		p := r.peerFor(ld)
+		w.lock()
+		cur := ld.current()
+		open := 0
+		for _, s := range ld.sessions {
+			if !s.closed {
+				open++
+			}
+		}
+		w.unlock()
+		if after&(1<<uint(i)) != 0 {
+			verifrt.Assert(p != nil && p.state == stateConnected, "configured-lookupd-has-a-connected-peer")
+			verifrt.Assert(verifInSync(r.n, ld), "configured-lookupd-lists-exactly-current-topics-and-channels")
+			verifrt.Assert(open == 1, "one-connection-per-configured-lookupd")
+		} else {
+			verifrt.Assert(p == nil, "removed-lookupd-has-no-peer")
+			verifrt.Assert(open == 0, "removed-lookupd-connection-is-closed")
+			_ = cur
+		}
+	}
+	verifrt.Reach("a-lookupd-added", before == 1 && after == 3)
+	verifrt.Reach("lookupd-removed", before == 3 && after == 2)
+	verifrt.Reach("lookupd-replaced", before == 1 && after == 2)
+	verifrt.Assert(!r.exited, "lookup-loop-still-running")
+	close(r.n.exitChan)
+	r.rest()
+	verifrt.Assert(r.exited, "lookup-loop-answers-exit")
 }
